@@ -1263,6 +1263,7 @@ int restore_svalue (char *cp, svalue_t * v) {
     case '"':
       return restore_string (cp, v);
     case '(':
+      save_svalue_depth = 0; /* may be left over from a save or restore that ended in error() */
       if (*cp == '{')
         {
           cp++;
@@ -1328,6 +1329,7 @@ int safe_restore_svalue (char *cp, svalue_t * v) {
       break;
     case '(':
       {
+        save_svalue_depth = 0; /* may be left over from a save or restore that ended in error() */
         if (*cp == '{')
           {
             cp++;
